@@ -48,13 +48,16 @@ Ltac violation w :=
   split; [apply neq_compute; vm_compute; reflexivity
          |apply N.nlt_ge, N.leb_le; vm_compute; reflexivity].
 
-(* 1. a delete-tree on a shorter prefix, an older tombstone left under the listed prefix *)
+(* 1. (repaired in /repo by d2fdf7c) a delete-tree on a shorter prefix with an older tombstone left
+      under the listed prefix: the delete now drops the tombstones it subsumes, and the history that
+      used to lose the update (26 -> 23) reports the write's index *)
 Definition w_kvlist : violation :=
   Violation [(6, KVSet "a/b" 1 0); (23, KVDelete "a/b"); (26, KVSet "a/b" 2 0)] 27 (KVDeleteTree "a/") (QKVList "a/b").
-Lemma w_kvlist_violates : violates w_kvlist. Proof. violation w_kvlist. Qed.
-Lemma w_kvlist_decreases :
-  let s := run (v_log w_kvlist) st0 in idx (QKVList "a/b") (apply 27 (KVDeleteTree "a/") s) < idx (QKVList "a/b") s.
-Proof. vm_compute. reflexivity. Qed.
+Lemma w_kvlist_repaired :
+  let s := run (v_log w_kvlist) st0 in
+  res (QKVList "a/b") (apply 27 (KVDeleteTree "a/") s) <> res (QKVList "a/b") s /\
+  idx (QKVList "a/b") s = 26 /\ idx (QKVList "a/b") (apply 27 (KVDeleteTree "a/") s) = 27.
+Proof. split; [apply neq_compute; vm_compute; reflexivity|split; vm_compute; reflexivity]. Qed.
 
 (* 2. a service id registered again under another name *)
 Definition w_rename : violation :=
@@ -68,6 +71,9 @@ Proof. split; [apply neq_compute|]; vm_compute; reflexivity. Qed.
 Definition w_rename_back : violation :=
   Violation [(2, EnsureNode "n1" 1); (3, EnsureSvc "n1" (spec "s2" "db")); (4, DelSvc "n1" "s2");
              (6, EnsureSvc "n1" (spec "s1" "web"))] 8 (EnsureSvc "n1" (spec "s1" "api")) (QSvcNodes "web").
+Lemma w_rename_back_reach :
+  Reach (last_index 0 (v_log w_rename_back)) (run (v_log w_rename_back) st0) /\ last_index 0 (v_log w_rename_back) < 8.
+Proof. split; [apply (Reach_log (v_log w_rename_back)); vm_compute; reflexivity|vm_compute; reflexivity]. Qed.
 Lemma w_rename_decreases :
   let s := run (v_log w_rename_back) st0 in
   idx (QSvcNodes "web") (apply 8 (v_c w_rename_back) s) < idx (QSvcNodes "web") s.
@@ -97,8 +103,6 @@ Definition w_csn_connect : violation :=
 Lemma w_csn_connect_violates : violates w_csn_connect. Proof. violation w_csn_connect. Qed.
 
 (* the hypotheses of the partial theorems are exactly what these witnesses break *)
-Lemma w_kvlist_unsafe : ~ cmd_kv_ok (v_q w_kvlist) (v_c w_kvlist).
-Proof. unfold w_kvlist. cbn [v_q v_c cmd_kv_ok kv_ok deltree_ok]. intros [H|H]; vm_compute in H; discriminate. Qed.
 Lemma w_rename_unsafe : ~ safe_cmd (v_c w_rename) (run (v_log w_rename) st0).
 Proof.
   remember (run (v_log w_rename) st0) as s eqn:Es.
@@ -144,8 +148,8 @@ Qed.
 (* deleting the node changes the health view of "web": the write is safe, the query in the proved
    family, the result changes -- every hypothesis of the partial theorems is met *)
 Definition ex_cmd : cmd := DelNode "n1".
-Lemma ex_safe : safe_cmd ex_cmd ex_state /\ safe_query (QCSN "web") ex_cmd.
-Proof. split; [exact I|]. split; [eapply ok_svc; constructor|exact I]. Qed.
+Lemma ex_safe : safe_cmd ex_cmd ex_state /\ safe_query (QCSN "web").
+Proof. split; [exact I|]. eapply ok_svc; constructor. Qed.
 Lemma ex_changes : res (QCSN "web") (apply 9 ex_cmd ex_state) <> res (QCSN "web") ex_state.
 Proof. apply neq_compute. vm_compute. reflexivity. Qed.
 
@@ -172,7 +176,7 @@ Proof.
 Qed.
 
 Lemma never_missed_partial_lemma hi s i c q :
-  Reach hi s -> Coherent s -> hi < i -> safe_cmd c s -> safe_query q c ->
+  Reach hi s -> Coherent s -> hi < i -> safe_cmd c s -> safe_query q ->
   res q (apply i c s) <> res q s ->
   idx q s < idx q (apply i c s) /\ fires (ws q s) (touched i c s) = true.
 Proof.
@@ -184,10 +188,10 @@ Qed.
 Lemma monotone_refuted_lemma :
   ~ (forall hi s i c q, Reach hi s -> hi < i -> (forall u, c <> Reap u) -> idx q s <= idx q (apply i c s)).
 Proof.
-  intros H. destruct w_kvlist_violates as (HR & Hlt & _ & _).
-  assert (Hr : forall u, v_c w_kvlist <> Reap u) by (intros u; discriminate).
-  pose proof (H _ _ _ _ (v_q w_kvlist) HR Hlt Hr) as Hle.
-  pose proof w_kvlist_decreases as Hd. cbv zeta in Hd.
+  intros H. destruct w_rename_back_reach as [HR Hlt].
+  assert (Hr : forall u, v_c w_rename_back <> Reap u) by (intros u; discriminate).
+  pose proof (H _ _ _ _ (QSvcNodes "web") HR Hlt Hr) as Hle.
+  pose proof w_rename_decreases as Hd. cbv zeta in Hd.
   apply N.lt_nge in Hd. apply Hd. exact Hle.
 Qed.
 
@@ -205,7 +209,7 @@ Proof.
 Qed.
 
 Lemma wakes_lemma hi s i c q :
-  Reach hi s -> Coherent s -> hi < i -> 1 < i -> safe_cmd c s -> safe_query q c ->
+  Reach hi s -> Coherent s -> hi < i -> 1 < i -> safe_cmd c s -> safe_query q ->
   res q (apply i c s) <> res q s ->
   fires (ws q s) (touched i c s) = true /\
   reported q s < reported q (apply i c s) /\
@@ -220,27 +224,26 @@ Proof.
 Qed.
 
 Lemma refuted_classes_lemma :
-  violates w_kvlist /\ violates w_rename /\ violates w_connect /\ violates w_check_moved /\ violates w_csn_connect /\
+  violates w_rename /\ violates w_connect /\ violates w_check_moved /\ violates w_csn_connect /\
   (let s := run (v_log w_rename) st0 in
    res (QCSN "web") (apply 5 (v_c w_rename) s) <> res (QCSN "web") s /\
    fires (ws (QCSN "web") s) (touched 5 (v_c w_rename) s) = false).
 Proof.
-  exact (conj w_kvlist_violates (conj w_rename_violates (conj w_connect_violates
-        (conj w_check_moved_violates (conj w_csn_connect_violates w_rename_no_wake))))).
+  exact (conj w_rename_violates (conj w_connect_violates
+        (conj w_check_moved_violates (conj w_csn_connect_violates w_rename_no_wake)))).
 Qed.
 
 Lemma hypotheses_met_lemma :
-  Reach 8 ex_state /\ Coherent ex_state /\ 8 < 9 /\ safe_cmd ex_cmd ex_state /\ safe_query (QCSN "web") ex_cmd /\
+  Reach 8 ex_state /\ Coherent ex_state /\ 8 < 9 /\ safe_cmd ex_cmd ex_state /\ safe_query (QCSN "web") /\
   res (QCSN "web") (apply 9 ex_cmd ex_state) <> res (QCSN "web") ex_state.
 Proof.
   split; [exact ex_reach|]. split; [exact ex_coherent|]. split; [reflexivity|].
   split; [exact (proj1 ex_safe)|]. split; [exact (proj2 ex_safe)|exact ex_changes].
 Qed.
 Lemma hypotheses_exclude_lemma :
-  ~ cmd_kv_ok (v_q w_kvlist) (v_c w_kvlist) /\
   ~ safe_cmd (v_c w_rename) (run (v_log w_rename) st0) /\
   ~ safe_cmd (v_c w_check_moved) (run (v_log w_check_moved) st0) /\
   ~ okq (v_q w_connect) /\ ~ okq (v_q w_csn_connect).
 Proof.
-  exact (conj w_kvlist_unsafe (conj w_rename_unsafe (conj w_check_moved_unsafe (conj w_connect_not_okq w_csn_connect_not_okq)))).
+  exact (conj w_rename_unsafe (conj w_check_moved_unsafe (conj w_connect_not_okq w_csn_connect_not_okq))).
 Qed.
